@@ -12,7 +12,7 @@
 //! argument.
 
 use crate::error::{CloseError, RecvError, RecvErrorTimeout, SendError, TryRecvError, TrySendError};
-use crate::internal::rendezvous::{MpscRvShared, WAITING};
+use crate::internal::rendezvous::{MpscRvShared, DISCONNECTED, WAITING};
 
 use std::future::Future;
 use std::marker::PhantomPinned;
@@ -269,7 +269,8 @@ impl<T: Send> Drop for RendezvousSyncReceiver<T> {
 impl<T: Send> RendezvousAsyncSender<T> {
   /// Sends a value, resolving once the receiver takes it or the channel closes.
   pub fn send(&self, item: T) -> SendFuture<'_, T> {
-    SendFuture::new(&self.shared, item)
+    let fut = SendFuture::new(&self.shared, item);
+    if self.closed.load(Ordering::Relaxed) { fut.rejected() } else { fut }
   }
 
   /// Attempts to hand off to an already-waiting receiver without awaiting.
@@ -355,7 +356,8 @@ impl<T: Send> RendezvousAsyncReceiver<T> {
   /// Receives a value, resolving once a sender hands one off or the channel
   /// disconnects.
   pub fn recv(&self) -> RecvFuture<'_, T> {
-    RecvFuture::new(&self.shared)
+    let fut = RecvFuture::new(&self.shared);
+    if self.closed.load(Ordering::Relaxed) { fut.rejected() } else { fut }
   }
 
   /// Attempts to take from an already-waiting sender without awaiting.
@@ -452,6 +454,14 @@ impl<'a, T: Send> SendFuture<'a, T> {
       _pin: PhantomPinned,
     }
   }
+
+  /// For an operation started on a handle that was already closed: the first poll takes the
+  /// regular terminal path and resolves with the closed/disconnected error.
+  fn rejected(mut self) -> Self {
+    self.state = AtomicU8::new(DISCONNECTED);
+    self.registered = true;
+    self
+  }
 }
 
 impl<'a, T: Send> Future for SendFuture<'a, T> {
@@ -500,6 +510,14 @@ impl<'a, T: Send> RecvFuture<'a, T> {
       registered: false,
       _pin: PhantomPinned,
     }
+  }
+
+  /// For an operation started on a handle that was already closed: the first poll takes the
+  /// regular terminal path and resolves with the closed/disconnected error.
+  fn rejected(mut self) -> Self {
+    self.state = AtomicU8::new(DISCONNECTED);
+    self.registered = true;
+    self
   }
 }
 
